@@ -21,7 +21,6 @@ import (
 	"github.com/gotid/god/internal/verifdrv/c12raw"
 	"github.com/gotid/god/lib/breaker"
 	"github.com/gotid/god/lib/logx"
-	"github.com/gotid/god/lib/syncx"
 )
 
 type verifOp struct {
@@ -820,8 +819,8 @@ func verifDiff(c verifCase) any {
 		n = 1
 	}
 	o := c.Opts
-	clientManager = syncx.NewResourceManager() // ports are reused across cases: never inherit a cached client
-	clusterManager = syncx.NewResourceManager()
+	VerifResetClients() // never inherit a cached client; and close the ones this case creates when it is over
+	defer VerifResetClients()
 	GetScriptCache().Store(make(Map)) // the script cache is process-wide: start every case empty
 	var sw, sr []*miniredis.Miniredis
 	var ws, alts []*Redis
@@ -1023,7 +1022,8 @@ func verifRuns(c verifCase) any {
 		return map[string]any{"error": err.Error()}
 	}
 	defer s.Close()
-	clientManager = syncx.NewResourceManager()
+	VerifResetClients()
+	defer VerifResetClients()
 	runs := []any{}
 	for _, op := range c.Ops {
 		w := New(s.Addr())
@@ -1079,7 +1079,8 @@ func verifBreaker(c verifCase) any {
 	if err != nil {
 		return map[string]any{"error": err.Error()}
 	}
-	clientManager = syncx.NewResourceManager()
+	VerifResetClients()
+	defer VerifResetClients()
 	w := New(s.Addr())
 	brk := &verifBrk{inner: w.brk}
 	w.brk = brk
